@@ -112,6 +112,14 @@ def run(ctx):
     if thorough:
         # code -> specification on the histories the repository's own tests perform
         gc.recorder_run(ctx)
+        # the same machine with numba's JIT off: a sample of the histories, judged by TLC as well, and a panel of
+        # fresh values compared across the two configurations
+        from harness import gridops as G
+
+        sample = [j for k, j in enumerate(jobs) if k % max(1, len(jobs) // 600) == 0][:600]
+        off = gc.jit_off_run(ctx, [(900000 + k, j[1], j[2]) for k, j in enumerate(sample)], ["cubo", "trocto_cut", "cube_xyz", "ugrid_edges", "quadhex"], G.QUICK_OPS)
+        v2, d2 = gc.validate(ctx, off, "validate %d traces recorded with JIT off against GridLazy" % len(off))
+        gc.report(ctx, off, v2, d2)
     ctx.exhaustive = True
     ctx.rule = (
         "TLC proves the invariants of GridLazy under the intended mechanism (exhaustive per action family) and that the "
@@ -125,7 +133,7 @@ def run(ctx):
     ctx.assumptions += [
         "a fresh grid is a new object built from the same source in the same process with module templates restored",
         "floats are compared with rtol=atol=1e-12 (different but equivalent code paths may differ in the last bits)",
-        "JIT-off configuration is not exercised in this tier" if not thorough else "JIT-off is exercised by the recorder run only",
+        "JIT-off configuration is not exercised in this tier" if not thorough else "JIT off = NUMBA_DISABLE_JIT=1 with the package's own re-enabling at import neutralised (harness/x_c18.freeze_jit_off)",
     ]
 
 
